@@ -912,12 +912,20 @@ func (c *Ctx) merge(a, b *State) *State {
 	for k, va := range a.vars {
 		vb, ok := b.vars[k]
 		if !ok {
-			continue // out of scope on one side
+			// declared on one side only (e.g. a return before the declaration): only code reached through that side can
+			// name it (deferred calls guarded by their flag), so its value there is the value
+			n.vars[k] = va
+			continue
 		}
 		if sameVal(va, vb) {
 			n.vars[k] = va
 		} else {
 			n.vars[k] = c.nameVal(c.iteVal(cond, va, vb), k.Name())
+		}
+	}
+	for k, vb := range b.vars {
+		if _, ok := a.vars[k]; !ok {
+			n.vars[k] = vb
 		}
 	}
 	for k, va := range a.ghosts {
